@@ -95,7 +95,7 @@ namespace verif
         u32      cur_owner;  // logical owner tag for new blocks / expected owner of releases
         u32      check_lifo; // releases must be most recent outstanding block of the same owner
         u32      frozen;     // any call is a violation (e.g. while destroying a moved-from object)
-        u32      place;      // 0: first fit at the lowest address; 1: alternate lowest / highest address (non-monotonic block addresses)
+        u32      place;      // 0: first fit at the lowest address; 1: alternate lowest / highest address (non-monotonic block addresses); 2: always the highest address (descending)
 
         void init(u8* arena, std::size_t arena_bytes, u32 cap)
         {
@@ -147,7 +147,7 @@ namespace verif
             }
             std::size_t a = align < 16 ? 16 : align;
             std::size_t pos = 0;
-            if (place == 1 && (nblk % 2) == 1)
+            if ((place == 1 && (nblk % 2) == 1) || place == 2)
             {
                 // highest address that fits
                 long p = long((ARENA - bytes) / a * a);
